@@ -299,6 +299,34 @@ def extract_obs(docs_b, docs_o, notes):
     return tbl, f
 
 
+INV_INST = INST + """#include <utility>
+namespace c19inv { using namespace rkcommon::utility;
+// forces clang to declare the implicit special members (and shows which exist)
+inline void use(Observable &a, Observer &b, TimeStamp &t) {
+  Observable c(a); Observable d(std::move(a)); c = d; c = std::move(d);
+  Observer e(b); Observer f(std::move(b)); e = f; e = std::move(f);
+  TimeStamp u(t); TimeStamp v(std::move(t)); u = v; u = std::move(v); size_t s = u; (void)s; bool lt = u < v; (void)lt; } }
+"""
+
+
+def inventory(repo, work):
+    """every member (incl. implicitly declared special members, fields, friends) of TimeStamp, Observable, Observer"""
+    inv = {}
+    for filt in ("rkcommon::utility::TimeStamp", "rkcommon::utility::Observable", "rkcommon::utility::Observer"):
+        docs = sxast.dump(repo, work, INV_INST, filt, "c19_inv")
+        inv.update(sxast.inventory(docs, classes=("TimeStamp", "Observable", "Observer")))
+    # namespace-level functions / operators declared by the three files (none today: `<` on stamps is the built-in one after
+    # the conversion to size_t)
+    docs = sxast.dump(repo, work, INV_INST, "rkcommon::utility::", "c19_inv")
+    for d in docs:
+        if d.get("kind") in ("FunctionDecl", "FunctionTemplateDecl"):
+            f = ((d.get("loc") or {}).get("includedFrom") or {}).get("file", "") + " " + str((d.get("loc") or {}).get("file", ""))
+            ps = " ".join((p.get("type") or {}).get("qualType", "") for p in inner(d) if p.get("kind") == "ParmVarDecl")
+            if "TimeStamp" in ps or "Observ" in ps:
+                inv["%s %s" % (d.get("name"), (d.get("type") or {}).get("qualType", ""))] = {"kind": d.get("kind")}
+    return inv
+
+
 def coq_bool(b):
     return "true" if b else "false"
 
